@@ -1,0 +1,10 @@
+//go:build verif
+
+package rtpreceiver
+
+import "github.com/pion/rtcp"
+
+// VerifReport generates a receiver report immediately (runtime verification hook).
+func (rr *Receiver) VerifReport() rtcp.Packet {
+	return rr.report()
+}
